@@ -97,6 +97,21 @@ func TestReplay(t *testing.T) {
 		probeEvalCmd(t, c)
 	case "hookfilter":
 		probeHookFilter(t, c)
+	case "argtables":
+		var d struct {
+			Case polCase `json:"case"`
+		}
+		if err := json.Unmarshal(doc.Data, &d); err != nil || len(d.Case.Ops) == 0 {
+			t.Fatalf("bad replay data: %v", err)
+		}
+		srv := mustStart(t, t38.Opts{})
+		defer srv.StopAsync()
+		same, other := srv.MustDial(), srv.MustDial()
+		defer same.Close()
+		defer other.Close()
+		same.MustDo("SET", "hyg", "o", "POINT", "1", "2")
+		c.Case()
+		runPolluter(t, c, same, other, d.Case)
 	case "roleflip":
 		var d struct {
 			Case flipCase `json:"case"`
